@@ -21,7 +21,7 @@ type c02Cfg struct {
 	start            int64  // abs: seconds; rel: offset
 	tsbd             int64
 	snr              int
-	atoMS            int64 // -1 inf
+	atoMS            int64 // -1 inf; below -1: a negative offset of that many ms
 }
 
 func (c c02Cfg) parts() []string {
@@ -42,6 +42,8 @@ func (c c02Cfg) parts() []string {
 	}
 	p = append(p, fmt.Sprintf("tsbd_%d", c.tsbd))
 	switch {
+	case c.atoMS < -1:
+		p = append(p, fmt.Sprintf("ato_-%d.%03d", -c.atoMS/1000, -c.atoMS%1000))
 	case c.atoMS < 0:
 		p = append(p, "ato_inf")
 	case c.atoMS > 0:
@@ -95,8 +97,8 @@ func TestVerifC02(t *testing.T) {
 					}{{"abs", 0}, {"abs", 900}, {"rel", -20}} {
 						for _, tsbd := range []int64{0, 1, 5, 10, 60} {
 							for _, snr := range []int{-1, 1, 7} {
-								for _, ato := range []int64{0, segMS / 2, segMS + 500, -1} {
-									if ato < 0 && mode != "number" {
+								for _, ato := range []int64{0, segMS / 2, segMS + 500, -1, -1000} {
+									if ato == -1 && mode != "number" {
 										continue
 									}
 									k++
@@ -155,7 +157,7 @@ func c02RunCfg(rep *vh.Report, c c02Cfg, quick bool) {
 		}
 	}
 	ato := c.atoMS
-	if ato < 0 {
+	if ato == -1 {
 		ato = 0
 	}
 	loops := int64(2)
@@ -233,6 +235,10 @@ func c02CheckInstant(rep *vh.Report, srv *Server, a *vref.VAsset, c c02Cfg, pref
 		if resp.vCrashed() {
 			site, val := vPanicSite(srv.livesimHandlerFunc, "GET", url, nil)
 			viol("C02.mpd", "panic:"+site, "MPD handler crashed: "+val, url)
+		} else if c.atoMS < -1 && resp.Code >= 400 && resp.Code < 500 && len(resp.Body) > 0 {
+			// a negative availabilityTimeOffset may be refused as a configuration (then nothing is declared);
+			// if it is accepted, the MPD and the segment side must agree on it like on any other value
+			rep.Hit("C02.refused-config")
 		} else {
 			viol("C02.mpd", fmt.Sprintf("mpd-status-%d", resp.Code), fmt.Sprintf("MPD status %d %q", resp.Code, vTrim(resp.Body)), url)
 		}
